@@ -62,8 +62,14 @@ func ruleDET1(c *Ctx) {
 						if pc, ok := parents(fd)[x].(*ast.CallExpr); ok && len(pc.Args) >= 1 && pc.Args[0] == ast.Expr(x) {
 							switch pf := fullName(calleeFunc(info, pc)); pf {
 							case "slices.Sorted":
-								if fullName(fn) == "maps.Keys" { // keys are distinct: the sorted order is unique
-									c.ok(rule, fmt.Sprintf("%s/call(%s)", funcKey(pk, fd), fullName(fn)), p.Pos(x.Pos()), "the keys are collected by slices.Sorted: ordered by the keys' natural order")
+								if fullName(fn) == "maps.Keys" || fullName(fn) == "maps.Values" { // natural order: equal elements are indistinguishable
+									c.ok(rule, fmt.Sprintf("%s/call(%s)", funcKey(pk, fd), fullName(fn)), p.Pos(x.Pos()), "the elements are collected by slices.Sorted: ordered by their natural order")
+									return true
+								}
+							case "slices.SortedFunc":
+								// the same trust as slices.SortFunc applied to the collected slice: the comparator is listed
+								if (fullName(fn) == "maps.Keys" || fullName(fn) == "maps.Values") && len(pc.Args) == 2 {
+									c.ok(rule, fmt.Sprintf("%s/call(%s)", funcKey(pk, fd), fullName(fn)), p.Pos(x.Pos()), "the elements are collected by slices.SortedFunc by %s", truncate(exprString(pc.Args[1]), 90))
 									return true
 								}
 							case "slices.Collect", "slices.AppendSeq":
